@@ -263,3 +263,44 @@ func verifH_C09_connect() {
 	verifAssert(verifBytesEq(got, want), "C09: CONNECT bytes differ from the reference encoding")
 	verifReach("encoded")
 }
+
+// remaining-length width boundaries of SUBSCRIBE / UNSUBSCRIBE (concrete long filters)
+func verifH_C09_requestsizes() {
+	verifUnwind(70000)
+	store := &verifStore{}
+	c := verifNewClient(store, &Config{})
+	conn := &verifConn{}
+	verifGoOnline(c, conn)
+	kind := verifChoose("kind", 2) // 0 subscribe, 1 unsubscribe
+	totals := []int{126, 127, 128, 129, 16382, 16383, 16384, 16385}
+	total := totals[verifChoose("total", len(totals))]
+	// remaining length = 2 + (2 + len + 1) for subscribe, 2 + (2 + len) for unsubscribe
+	n := total - 5
+	if kind == 1 {
+		n = total - 4
+	}
+	f := make([]byte, n)
+	for i := range f {
+		f[i] = 'a'
+	}
+	var err error
+	if kind == 0 {
+		err = c.SubscribeLimitAtLeastOnce(verifClosedChan(), string(f))
+	} else {
+		err = c.Unsubscribe(verifClosedChan(), string(f))
+	}
+	if errors.Is(err, ErrCanceled) {
+		verifAssert(len(conn.wlog) == 0, "C14: canceled request wrote bytes")
+		verifReach("canceled")
+		return
+	}
+	verifAssert(errors.Is(err, ErrAbandoned), "C09: unexpected outcome for a valid request")
+	var want []byte
+	if kind == 0 {
+		want = verifRefSubscribe(uint16(subscribeIDSpace), [][]byte{f}, 1)
+	} else {
+		want = verifRefUnsubscribe(uint16(unsubscribeIDSpace), [][]byte{f})
+	}
+	verifAssert(verifBytesEq(conn.wlog, want), "C09: (UN)SUBSCRIBE with a long filter differs from the reference encoding (remaining-length width boundary)")
+	verifReach("encoded")
+}
